@@ -234,6 +234,13 @@ pub fn mutate(rng: &mut Rng, file: &[u8]) -> (Vec<u8>, &'static str) {
     let xml_bytes = extract_xml(file);
     let xml = String::from_utf8_lossy(&xml_bytes).to_string();
     let mut l = depage(file);
+    if rng.chance(1, 40) && l.len() >= 48 {
+        // header fields that lie CONSISTENTLY: a huge XML length together with an equally huge file length
+        let xl: u64 = *rng.pick(&[1u64 << 30, 3u64 << 29, (1u64 << 31) + 4]);
+        l[32..40].copy_from_slice(&xl.to_le_bytes());
+        l[16..24].copy_from_slice(&(xl * 4).to_le_bytes());
+        return (repage(&l), "header-lengths-consistent-huge");
+    }
     if rng.chance(1, 25) {
         // a blob whose two length fields lie CONSISTENTLY: the descriptor in the XML and the section length in the
         // blob's own header are both huge and agree, the file is tiny
